@@ -434,6 +434,20 @@ func (r *Runner) Run() int {
 					rr, confirmed = rr2, true
 					fo.Native = rr2.Kind + " (generic input values)"
 				}
+				// a path may pin one input to a literal (x == 0 guards): keep the
+				// model's value for one float input at a time, generic values elsewhere
+				for i := 0; i < len(gt) && !confirmed; i++ {
+					if gt[i].Kind != "f64" || gt[i].V == f.Tape[i].V {
+						continue
+					}
+					ht := append([]ssaexec.TapeEntry{}, gt...)
+					ht[i].V = f.Tape[i].V
+					rr3, err := L.Replay(hr.Pkg, hr.Name, ht, dir, to)
+					if err == nil && rr3.Confirmed {
+						rr, confirmed = rr3, true
+						fo.Native = fmt.Sprintf("%s (generic input values, model value kept for float input %d)", rr3.Kind, i)
+					}
+				}
 			}
 			if !confirmed && f.OverApprox {
 				// a candidate on a path whose branch conditions left the exact
